@@ -26,6 +26,14 @@ def _ansi_contracts():
 
 
 PROPS = {
+    'C13': {
+        'contracts': ['pexpect.utils.split_command_line', 'pexpect.utils.is_executable_file', 'pexpect.utils.which'],
+        'extra': 'contracts.extra_c13',
+        'bounds': {'*': {'alphabet': "a '\"\\\\", 'maxlen': 5}},
+        'assumptions': ['str.isspace() decides what separates arguments (uninterpreted in the proof; the reference rules use the same predicate)',
+                        'os.path.realpath/isfile/dirname/join and os.access are functions of their arguments during one lookup (the file system does not change under it); what the child finally sees (execvpe, chdir, TIOCSWINSZ) is ptyprocess / the kernel and is outside the contracts',
+                        'the round-trip law (quote, join, split gives back the argument list) is checked on the real function by bounded enumeration only; what is proved is that the real loop is the documented automaton for every input'],
+    },
     'C18': {
         'contracts': _screen_contracts() + _ansi_contracts(),
         'extra': 'contracts.extra_c18',
